@@ -723,8 +723,8 @@ def run(ctx):
             if ctx.out_of_time():
                 break
             check_case(ctx, c)
-    n_coop = ctx.scale(16, 260)
-    n_ref = ctx.scale(12, 200)
+    n_coop = ctx.scale(26, 260)
+    n_ref = ctx.scale(18, 200)
     ctx.explore(coop_cases(), lambda c: check_case(ctx, c), n_coop, shrink=False)
     ctx.explore(refuse_cases(), lambda c: check_case(ctx, c), n_ref, shrink=False, seed_offset=1)
 
